@@ -461,6 +461,9 @@ func runTx1(ins []inEl, outs []outEl, corr bool, replay map[string]interface{}) 
 		viol("C18:inplace:objects", "InPlaceSort did not merely permute the transaction's own input/output objects", nil)
 	}
 	cIn, cOut := elemsOf(c)
+	if !refOrderedIn(cIn) || !refOrderedOut(cOut) {
+		viol("C18:inplace:order", "InPlaceSort's result is not in BIP69 order", map[string]interface{}{"in_place": txJSON(cIn, cOut)})
+	}
 	if keySeq(c) != ks || (!ties && snapshot(c) != snapshot(s)) {
 		viol("C18:inplace:same_order", "InPlaceSort and Sort produce different orders", map[string]interface{}{"sorted": txJSON(sIn, sOut), "in_place": txJSON(cIn, cOut)})
 	}
@@ -690,7 +693,7 @@ func permute[T any](l []T, f func([]T)) {
 func main() {
 	cfg = vh.ParseFlags("C18")
 	rep = vh.NewReport(cfg)
-	rep.Rule = "comparator pairs over a structured hash/amount/script pool (observed through IsSorted on two-element transactions); all tuples of <= 4 and all permutations of random multisets of 5..6 inputs/outputs over small key alphabets with ties; txids differing in one byte at every position and in two bytes that disagree at every pair of positions; amounts next to each other at every binary size and sign; scripts equal up to every position of the usual lengths and standard script shapes; random transactions up to hundreds of inputs/outputs with few distinct keys; the same TxIn/TxOut objects holding other contents on a later call; a comparator pair is non-trivial when the keys differ, a transaction when it has >= 2 elements and is out of order or holds unequal elements with equal keys; distinct by content"
+	rep.Rule = "comparator pairs over a structured hash/amount/script pool (observed through IsSorted on two-element transactions); all tuples of <= 4 and all permutations of random multisets of 5..6 inputs/outputs over small key alphabets with ties; txids differing in one byte at every position and in two bytes that disagree at every pair of positions; amounts next to each other at every binary size and sign; scripts equal up to every position of the usual lengths and standard script shapes; random transactions up to hundreds of inputs/outputs with few distinct keys; the same TxIn/TxOut objects holding other contents on a later call; a comparator pair is non-trivial when the keys differ, transactions of the sizes around 8..128 (thorough: ..512) whose txids share their high-order bytes; standard script shapes with one byte changed at every position; special values of the fields that play no role in the ordering (null outpoint, signature-script lengths, sequence, token data) on one side with the other side out of order; a transaction when it has >= 2 elements and is out of order or holds unequal elements with equal keys; distinct by content"
 	cases = vh.NewCases(cfg, "Run.Run_C18", 150) // small shards: a 300-case shard of large transactions needs 1 GB in coqc
 	rng := vh.NewRNG(cfg.Seed)
 	wide := cfg.Search || cfg.Thorough()
@@ -866,6 +869,46 @@ func main() {
 			runTx(nil, []outEl{a, b, {Value: v, Script: templateScript(r)}, {Value: v, Script: templateScript(r)}}, i%40 == 0 && !cfg.Search)
 		}
 	}
+	// every standard shape against itself with exactly ONE byte changed, at EVERY position (opcode bytes,
+	// push lengths, every payload byte, the trailing opcode): a comparison that skips "fixed" bytes of a
+	// recognised shape shows only here
+	for shape := 0; shape < 5; shape++ {
+		for rep2 := 0; rep2 < 2; rep2++ {
+			h := r.Bytes(40)
+			var sa []byte
+			switch shape {
+			case 0:
+				sa = p2pkh(h)
+			case 1:
+				sa = p2sh(h)
+			case 2:
+				sa = p2sh32(h)
+			case 3:
+				sa = p2pk(h)
+			default:
+				sa = opReturn(h, 20)
+			}
+			v := vh.Pick(r, amounts)
+			for pos := 0; pos < len(sa); pos++ {
+				sb := append([]byte(nil), sa...)
+				if rep2 == 0 {
+					sb[pos]++ // the neighbouring byte value (wraps to 00 from ff)
+				} else {
+					sb[pos] ^= byte(1 + r.Intn(255))
+				}
+				a := outEl{Value: v, Script: sa}
+				b := outEl{Value: v, Script: sb}
+				rep.Histogram["out_less_standard_shape_one_byte_changed"] += 2
+				corr := !cfg.Search && rep2 == 0 && (shape*7+pos)%5 == 0
+				lessOut(a, b, corr)
+				lessOut(b, a, corr)
+				runTx(nil, []outEl{b, a}, false)
+				if pos%6 == 0 {
+					runTx(nil, []outEl{a, b, {Value: v, Script: sa[:len(sa)-1]}, b, a}, false)
+				}
+			}
+		}
+	}
 	for i, va := range amounts {
 		for j, vb := range amounts {
 			for k, sa := range scripts {
@@ -973,6 +1016,136 @@ func main() {
 			oo[1], oo[2] = oo[2], oo[1]
 		}
 		runTx(oi[:1+r.Intn(3)], oo[:2+r.Intn(3)], i < 12)
+	}
+
+	// --- transactions around the sizes where a sorting routine may switch strategy (12, 24, 32, 64, 128, ...),
+	// made of txids that share their high-order bytes and differ only in low-order ones (and scripts of one
+	// amount sharing a long prefix), with the indices ordered the other way round
+	r = rng.Fork("sizes")
+	sizes := []int{7, 8, 9, 11, 12, 13, 15, 16, 17, 23, 24, 25, 31, 32, 33, 49, 50, 51, 63, 64, 65, 99, 100, 101, 127, 128, 129}
+	if cfg.Thorough() || cfg.Search {
+		sizes = append(sizes, 255, 256, 257, 511, 512, 513)
+	}
+	for si, n := range sizes {
+		for _, low := range []int{1, 2, 8, 16, 24, 31} { // number of low-order (stored leading) bytes that vary
+			var base [32]byte
+			copy(base[:], r.Bytes(32))
+			if low%2 == 0 {
+				for k := low; k < 32; k++ { // leading zeros as displayed
+					base[k] = 0
+				}
+			}
+			ins := make([]inEl, n)
+			for k := range ins {
+				h := base
+				switch {
+				case low == 1:
+					h[0] = byte(r.Intn(4))
+				case k%3 == 0:
+					h[r.Intn(low)] ^= byte(1 + r.Intn(255)) // one low-order byte differs from the base
+				default:
+					copy(h[:low], r.Bytes(low))
+				}
+				ins[k] = inEl{h, 0, nil, 0xffffffff}
+			}
+			// indices: the opposite of the txid order
+			rank := make([]int, n)
+			for k := range rank {
+				rank[k] = k
+			}
+			sort.SliceStable(rank, func(a, b int) bool { return refInLess(ins[rank[a]], ins[rank[b]]) })
+			for pos, k := range rank {
+				ins[k].Index = uint32(n - pos)
+			}
+			outs := make([]outEl, n)
+			pre := r.Bytes(low + 8)
+			for k := range outs {
+				sc := append(append([]byte(nil), pre...), r.Bytes(1+r.Intn(3))...)
+				outs[k] = outEl{Value: int64(r.Intn(2)), Script: sc}
+			}
+			rep.Histogram["tx_at_size_thresholds_shared_high_bytes"]++
+			runTx(ins, outs, !cfg.Search && n <= 33 && (si+low)%4 == 0)
+			if n >= 2 {
+				ins2 := append([]inEl(nil), ins[1:]...)
+				ins2 = append(ins2, ins[0])
+				runReuse(ins, ins2, nil, nil)
+			}
+		}
+	}
+
+	// --- fields that play no role in the ordering, at their special values, on one side; the other side out
+	// of order.  Inputs: null outpoint (zero hash, index 0xffffffff) and its neighbours, signature scripts of
+	// length 0, 1, 2, 3, 50, 100, 101, 520, sequence 0 / 0xfffffffe / 0xffffffff; one or two such inputs with
+	// outputs in several wrong orders.  Outputs: amounts 0 / dust / max, empty / OP_RETURN / standard
+	// scripts, token data; one or two such outputs with inputs in the wrong order.
+	r = rng.Fork("shapes")
+	var ffHash [32]byte
+	for i := range ffHash {
+		ffHash[i] = 0xff
+	}
+	shapeHashes := [][32]byte{{}, ffHash, hashWith([]int{0}, []byte{1}), hashWith([]int{31}, []byte{1})}
+	shapeIdx := []uint32{0xffffffff, 0, 0xfffffffe, 1}
+	shapeLens := []int{0, 1, 2, 3, 50, 99, 100, 101, 520}
+	shapeSeq := []uint32{0xffffffff, 0, 0xfffffffe}
+	wrongOuts := [][]outEl{
+		{{Value: 2, Script: []byte{1}}, {Value: 1, Script: []byte{2}}},
+		{{Value: 5, Script: []byte{2}}, {Value: 5, Script: []byte{1}}, {Value: 0, Script: opReturn(make([]byte, 40), 4)}},
+		{{Value: 5000000000, Script: p2pkh(make([]byte, 40))}, {Value: 0, Script: opReturn(make([]byte, 40), 36)}, {Value: 0, Script: []byte{0x6a}}},
+	}
+	shapeN := 0
+	for _, h := range shapeHashes {
+		for _, ix := range shapeIdx {
+			for _, ln := range shapeLens {
+				for _, sq := range shapeSeq {
+					e := inEl{h, ix, r.Bytes(ln), sq}
+					if ln == 0 {
+						e.Script = nil
+					}
+					for wi, wo := range wrongOuts {
+						shapeN++
+						if shapeN%7 == 0 {
+							curVersion, curLockTime = vh.Pick(r, versions), vh.Pick(r, lockTimes)
+						}
+						rep.Histogram["tx_special_input_fields_outputs_out_of_order"]++
+						runTx([]inEl{e}, wo, !cfg.Search && shapeN%40 == 0)
+						if wi == 0 { // a second input of the same kind after / before it
+							e2 := inEl{h, ix, r.Bytes(ln), shapeSeq[(shapeN+1)%3]}
+							runTx([]inEl{e, e2}, wo, false)
+							runTx([]inEl{{vh.Pick(r, shapeHashes), 3, nil, 0}, e}, wo, false)
+						}
+						curVersion, curLockTime = 2, 77
+					}
+				}
+			}
+		}
+	}
+	wrongIns := [][]inEl{
+		{{hashWith([]int{31}, []byte{2}), 0, nil, 0}, {hashWith([]int{31}, []byte{1}), 0, nil, 0}},
+		{{[32]byte{}, 1, []byte{0x51}, 0xffffffff}, {[32]byte{}, 0, nil, 0}, {ffHash, 0, nil, 0}},
+		{{ffHash, 0xffffffff, nil, 0}, {[32]byte{}, 0xffffffff, []byte{1, 2, 3, 4}, 0xffffffff}},
+	}
+	shapeVals := []int64{0, 1, 546, 5000000000, 2100000000000000, math.MaxInt64, -1}
+	shapeScripts := [][]byte{nil, {0x6a}, opReturn(make([]byte, 40), 40), p2pkh(make([]byte, 40)), p2sh(make([]byte, 40)), r.Bytes(520)}
+	shapeToks := []wire.TokenData{{}, {Amount: 1, BitField: 0x10}, {Amount: 0, BitField: 0x60, Commitment: []byte{1, 2}}}
+	for _, v := range shapeVals {
+		for _, sc := range shapeScripts {
+			for _, tk := range shapeToks {
+				e := outEl{Value: v, Script: sc, Tok: tk}
+				for wi, wins := range wrongIns {
+					shapeN++
+					if shapeN%7 == 0 {
+						curVersion, curLockTime = vh.Pick(r, versions), vh.Pick(r, lockTimes)
+					}
+					rep.Histogram["tx_special_output_fields_inputs_out_of_order"]++
+					runTx(wins, []outEl{e}, !cfg.Search && shapeN%40 == 0)
+					if wi == 0 {
+						runTx(wins, []outEl{e, e}, false)
+						runTx(wins, []outEl{e, {Value: v + 1, Script: sc, Tok: tk}}, false)
+					}
+					curVersion, curLockTime = 2, 77
+				}
+			}
+		}
 	}
 
 	// --- random transactions
